@@ -344,6 +344,50 @@ fn decode(t: &mut Tape) -> Case {
         Mode::Punned => pun(t, &mut spec, &mut pool),
         _ => {}
     }
+    // a loop-carried copy chain: every trip round the loop makes one more scalar of the chain
+    // unknown, so the analysis needs about as many rounds as the chain is long (a budget tied to
+    // the size of the function is exhausted; the analysis must still complete)
+    if matches!(mode, Mode::Repaired | Mode::Prologue | Mode::Arbitrary) && t.chance(1, 10) {
+        let nb = spec.blocks.len();
+        let on_cycle: Vec<usize> = (0..nb)
+            .filter(|b| {
+                let mut seen = std::collections::BTreeSet::new();
+                let mut stack: Vec<usize> = spec.edges.iter().filter(|e| e.0 == *b).map(|e| e.1).collect();
+                while let Some(x) = stack.pop() {
+                    if seen.insert(x) {
+                        stack.extend(spec.edges.iter().filter(|e| e.0 == x).map(|e| e.1));
+                    }
+                }
+                seen.contains(b)
+            })
+            .collect();
+        if let (Some(entry), false) = (spec.entry, on_cycle.is_empty()) {
+            let b = on_cycle[t.below(on_cycle.len())];
+            let k = t.range(9, 16);
+            let ch = |i: usize| il::scalar(format!("ch{}", i), 8);
+            let mut addr = 0xc000u64;
+            let mut mk = |op: il::Operation| {
+                addr += 4;
+                OpSpec { op, address: Some(addr) }
+            };
+            let mut body: Vec<OpSpec> = Vec::new();
+            for i in (1..k).rev() {
+                body.push(mk(il::Operation::Assign { dst: ch(i), src: il::Expression::Scalar(ch(i - 1)) }));
+            }
+            body.push(mk(il::Operation::Assign { dst: ch(0), src: il::Expression::Add(Box::new(il::Expression::Scalar(ch(0))), Box::new(il::Expression::constant(il::const_(1, 8)))) }));
+            let tail = spec.blocks[b].split_off(0);
+            spec.blocks[b] = body;
+            spec.blocks[b].extend(tail);
+            let mut pro: Vec<OpSpec> = (0..k).map(|i| mk(il::Operation::Assign { dst: ch(i), src: il::Expression::constant(il::const_(0, 8)) })).collect();
+            let tail = spec.blocks[entry].split_off(0);
+            pro.extend(tail);
+            spec.blocks[entry] = pro;
+            spec.gaps.clear();
+            for i in 0..k {
+                pool.scalars.push((format!("ch{}", i), 8));
+            }
+        }
+    }
     let big_endian = t.chance(1, 2);
     let n = t.range(1, 3);
     let mut runs = Vec::new();
